@@ -72,7 +72,7 @@ def proc(fmt, k, n, from_string=False):
 def text_of(p):
     if p["fmt"] == "gtf_cds":
         return gtf_cds_text(p["k"], p["n"])
-    return gff_text(p["k"], p["n"]) if p["fmt"] == "gff3" else gtf_text(p["k"], p["n"])
+    return gff_text(p["k"], p["n"]) if p["fmt"] == "gff3" else gtf_text(p["k"], p["n"])       # gtf, gtf_noinfer
 
 
 def nsync(p):
@@ -115,7 +115,8 @@ def gen_cases(rng, tier):
         for sched in rng.sample(allsch, 6 if tier == "quick" else 60):
             cases.append({"k": "run", "procs": ps, "schedule": sched, "offsets": None})
     for n in ([4, 8, 16, 24] if tier == "quick" else [4, 8, 12, 16, 17, 24, 24, 32]):
-        ps = [proc(rng.choice(["gff3", "gtf", "gtf_cds"]), rng.randrange(3), rng.choice([1, 2, 3]), rng.random() < 0.15) for _ in range(n)]
+        # gtf_noinfer: a GTF import with both kinds of inference switched off (nothing to derive, nothing to leave behind)
+        ps = [proc(rng.choice(["gff3", "gtf", "gtf_cds", "gtf_noinfer"]), rng.randrange(3), rng.choice([1, 2, 3]), rng.random() < 0.15) for _ in range(n)]
         cases.append({"k": "run", "procs": ps, "schedule": None, "offsets": None})
         cases.append({"k": "run", "procs": ps, "schedule": None, "offsets": [rng.choice([0, 0, 1, 3, 10]) for _ in range(n)]})
     for r in ([2, 5, 12] if tier == "quick" else [2, 5, 12, 24, 40]):
@@ -141,13 +142,14 @@ def dump(path):
 def do_import(p, out_path, indir):
     import gffutils
     text = text_of(p)
+    kw = dict(disable_infer_genes=True, disable_infer_transcripts=True) if p["fmt"] == "gtf_noinfer" else {}
     if p["from_string"]:
-        db = gffutils.create_db(text, out_path, from_string=True, force=True, verbose=False)
+        db = gffutils.create_db(text, out_path, from_string=True, force=True, verbose=False, **kw)
     else:
         src = os.path.join(indir, "in_%s_%d_%d_%d.txt" % (p["fmt"], p["k"], p["n"], os.getpid()))
         with open(src, "w") as fh:
             fh.write(text)
-        db = gffutils.create_db(src, out_path, force=True, verbose=False)
+        db = gffutils.create_db(src, out_path, force=True, verbose=False, **kw)
     db.conn.close()
 
 
@@ -351,7 +353,7 @@ def run_impl(c):
                 res = ["ok", dump(os.path.join(outdir, "out%d.db" % i))]
             except Exception as ex:
                 res = ["err", L.err_class(ex)]
-            obs.append({"from_string": p["from_string"], "ok": ok and finished, "result": res,
+            obs.append({"from_string": p["from_string"], "noinfer": p["fmt"] == "gtf_noinfer", "ok": ok and finished, "result": res,
                         "solitary": solitary[json.dumps(p, sort_keys=True)]})
         events.sort()
         return {"procs": obs, "trace": [e[1:] for e in events], "leftover": sorted(os.listdir(shared))}
@@ -362,7 +364,7 @@ def run_impl(c):
 def coq_case(c, o):
     if c["k"] == "readers":
         return "CReaders %s %s" % (imp.coq_tables(o["direct"]), L.lst([imp.res_tables(r) for r in o["seen"]], "(result tables)"))
-    ps = L.lst(["(mkProcObs %s %s %s %s)" % (L.b(p["from_string"]), L.b(p["ok"]), imp.res_tables(p["result"]),
+    ps = L.lst(["(mkProcObs %s %s %s %s %s)" % (L.b(p["from_string"]), L.b(bool(p.get("noinfer"))), L.b(p["ok"]), imp.res_tables(p["result"]),
                                            imp.res_tables(p["solitary"])) for p in o["procs"]], "procobs")
     tr = L.lst(["(%s %d%%nat %s)" % ("ECreate" if k == "create" else "EUnlink", i, L.s(n)) for i, k, n in o["trace"]], "ev")
     return "CRun %s %s %s" % (ps, tr, L.ss(o["leftover"]))
